@@ -52,15 +52,38 @@ def _tokens(s):
     return sorted(set(re.sub(r'[{}]', ' ', s).split()))      # as a set: deduplication is per selection set
 
 
+def _drop_unused_definitions(printed):
+    """A printed operation without the variable definitions whose variable does not occur in the body, the used
+    variables numbered in order of appearance in the body and their definitions sorted: the variables mapper does not
+    hand out the name of a leftover definition, so the names of the used variables (and the order of the definitions,
+    which follows the names) shift with the leftover ones."""
+    m = re.match(r"^(\w+(?: \w+)?)\((.*?)\)(\{.*)$", printed)
+    if not m:
+        return printed
+    order = {}
+    num = lambda t: re.sub(r"\$(\w+)", lambda v: "$%d" % order.setdefault(v.group(1), len(order)), t)
+    body = num(m.group(3))
+    defs = sorted(num(d) for d in m.group(2).split(", ") if d.split(":")[0].lstrip("$") in order)
+    return m.group(1) + ("(" + ", ".join(defs) + ")" if defs else "") + body
+
+
 def classify(case, detail):
     """Known-finding key of a spec failure, or None.  Keys are tied to the input class (generator flags
     recorded in the case line) AND to the failed clause, so that another failure on the same input is
     not absorbed."""
     fl = flags_of(case)
     clause = detail.split(" ", 1)[0]
-    # variables nested in list/object literals: their current JSON value is inlined at extraction
+    # variables nested in list/object literals: their JSON value is inlined at extraction.  The value part of the finding
+    # (the default of a variable that was not supplied was ignored) is repaired in /repo
+    # (work/fix3_nested-variable-in-extracted-literal.patch): exec_preserved on such an input is no longer mapped, a
+    # regression is a VIOLATION.  What is left: the nested variable stays DEFINED though it is no longer used.
     if "nestedvar" in fl:
-        return "nested-variable-in-extracted-literal"
+        if clause in ("valid_preserved/final", "idempotent/norm", "idempotent/mapped") and "but never used" in detail:
+            return "nested-variable-in-extracted-literal"
+        if clause == "canonical":
+            m = re.search(r' A="(.*)" B="(.*)" varsA=(.*) varsB=(.*) variant=', detail)
+            if m and _drop_unused_definitions(m.group(1)) == _drop_unused_definitions(m.group(2)):
+                return "nested-variable-in-extracted-literal"
     # (the keys list-coercion-skipped-when-operation-not-first and default-value-nested-list-not-coerced
     #  were repaired in /repo -- work/c03_fix_*.patch; they are no longer mapped, a regression is a VIOLATION)
     # (directive-after-dropped-directive-not-visited was repaired in /repo -- work/c03_fix_*.patch: the walker ranges
